@@ -225,6 +225,89 @@ def _floyd(prog, rep):
     rep.ob('T.diagonal-of-all-outputs-reset', f, '; '.join(dz), okd, 'after the k-loop the diagonals of lengths, hops and next-hop matrix must be reset', line=f.node.lineno)
 
 
+def _reachdist_axes(prog, rep, f, g):
+    """Axis provenance.  np.sum(CIJ, axis=0)[j] counts what enters j, axis=1 what leaves i.  A node nothing enters can never be a
+    target (its *column* of D is inf), a node nothing leaves never a source (its *row*).  The same two sets, complemented,
+    select the block R[rows, cols] whose completion ends the recursion."""
+    m = Matcher(prog, f)
+    stmts = [s for s in walk_no_nested(f.node) if isinstance(s, ast.Assign)]
+    deg = {}
+    for s in stmts:
+        for pat in ('$X = np.sum($A, axis=$K)', '$X = np.sum($A, $K)', '$X = $A.sum(axis=$K)', '$X = $A.sum($K)',
+                    '$X = np.count_nonzero($A, axis=$K)'):
+            b = m.match(s, pat)
+            if b and isinstance(b['X'], ast.Name) and isinstance(b['K'], ast.Constant) and b['K'].value in (0, 1):
+                deg[b['X'].id] = 'in' if b['K'].value == 0 else 'out'
+                break
+    zero = {}
+    for s in stmts:
+        for pat in ('$Z, = np.where($X == 0)', '$Z = np.where($X == 0)[0]', '$Z = np.flatnonzero($X == 0)', '$Z, = np.where(np.logical_not($X))',
+                    '$Z, = np.nonzero($X == 0)', '$Z = np.nonzero($X == 0)[0]'):
+            b = m.match(s, pat)
+            if b and isinstance(b['Z'], ast.Name) and isinstance(b['X'], ast.Name) and b['X'].id in deg:
+                zero[b['Z'].id] = deg[b['X'].id]
+                break
+    kept = {}
+    for s in stmts:
+        b = m.match(s, '$C = np.delete($L, $Z)') or m.match(s, '$C = np.setdiff1d($L, $Z)')
+        if b and isinstance(b['C'], ast.Name) and isinstance(b['Z'], ast.Name) and b['Z'].id in zero:
+            kept[b['C'].id] = zero[b['Z'].id]
+    ncol = nrow = 0
+    for s in stmts:
+        b = m.match(s, '$D[:, $S] = np.inf')
+        if b and isinstance(b['S'], ast.Name) and b['S'].id in zero:
+            ncol += 1
+            rep.ob('E.unreachable-columns-are-nodes-without-incoming-links', f, s, zero[b['S'].id] == 'in',
+                   'column j of the distance matrix is unreachable for everybody only when nothing enters j (zero column sum, axis=0); '
+                   '`%s` holds the nodes with zero %s-degree' % (b['S'].id, zero[b['S'].id]), line=s.lineno)
+        b = m.match(s, '$D[$S, :] = np.inf') or m.match(s, '$D[$S] = np.inf')
+        if b and isinstance(b['S'], ast.Name) and b['S'].id in zero:
+            nrow += 1
+            rep.ob('E.unreachable-rows-are-nodes-without-outgoing-links', f, s, zero[b['S'].id] == 'out',
+                   'row i of the distance matrix is all-inf only when nothing leaves i (zero row sum, axis=1); '
+                   '`%s` holds the nodes with zero %s-degree' % (b['S'].id, zero[b['S'].id]), line=s.lineno)
+    if not ncol:
+        rep.ob('E.unreachable-columns-are-nodes-without-incoming-links', f, 'D[:, id0] = np.inf', False,
+               'no statement marks the columns of nodes without incoming links as unreachable (the recursion stops before the marker n+2 is reached)', line=f.node.lineno)
+    if not nrow:
+        rep.ob('E.unreachable-rows-are-nodes-without-outgoing-links', f, 'D[od0, :] = np.inf', False,
+               'no statement marks the rows of nodes without outgoing links as unreachable', line=f.node.lineno)
+    # the completion test of the recursion
+    if g is None:
+        return
+    mg = Matcher(prog, g)
+    params = [a.arg for a in g.node.args.args]
+    tests = []
+    for sub in ast.walk(g.node):
+        b = mg.match(sub, 'np.ix_($R, $C)')
+        if b and isinstance(b['R'], ast.Name) and isinstance(b['C'], ast.Name):
+            tests.append((sub, b['R'].id, b['C'].id))
+    calls = [c for c in ast.walk(f.node) if isinstance(c, ast.Call) and isinstance(c.func, ast.Name) and c.func.id == g.name
+             and not any(c is x for x in ast.walk(g.node))]
+    for sub, r, c in tests:
+        ok = r in params and c in params and bool(calls)
+        why = 'block selectors are not parameters of the helper'
+        for call in calls:
+            if not ok:
+                break
+            try:
+                ar, ac = call.args[params.index(r)], call.args[params.index(c)]
+            except IndexError:
+                ok = False
+                why = 'call does not pass the selectors positionally'
+                break
+            kr = kept.get(ar.id) if isinstance(ar, ast.Name) else None
+            kc = kept.get(ac.id) if isinstance(ac, ast.Name) else None
+            if (kr, kc) != ('out', 'in'):
+                ok = False
+                why = ('the recursion must continue until every pair (source with outgoing links, target with incoming links) is reached: rows '
+                       'selector `%s` keeps nodes with non-zero %s-degree, column selector `%s` keeps nodes with non-zero %s-degree' % (
+                           norm(ar), kr, norm(ac), kc))
+        rep.ob('E.completion-test-block-axes', g, sub, ok, why, line=sub.lineno)
+    if not tests:
+        rep.ob('E.completion-test-block-axes', g, 'np.ix_(row, col)', False, 'the recursion has no completion test over the reachable block', line=g.node.lineno)
+
+
 def _reachdist(prog, rep):
     f = prog.func(DIST, 'reachdist')
     m = Matcher(prog, f)
@@ -234,6 +317,7 @@ def _reachdist(prog, rep):
         post.index('D = powr - D + 1') < post.index('D[D == n + 2] = np.inf')
     rep.ob('T.reachdist-sentinel', f, '; '.join(post[-4:]), ok, 'pairs never reached carry the marker n+2 after the conversion and must become inf; nodes without in/out connections are unreachable', line=f.node.lineno)
     g = f.nested.get('reachdist2')
+    _reachdist_axes(prog, rep, f, g)
     if g is not None:
         b = [norm(s) for s in g.node.body if not isinstance(s, ast.If)]
         okb = b[:3] == ['CIJpwr = np.dot(CIJpwr, CIJ)', 'R = np.logical_or(R, CIJpwr != 0)', 'D += R']
@@ -366,6 +450,12 @@ def variants(root):
     B('routing efficiency counts diagonal', 'rout_efficiency', '    np.fill_diagonal(Erout, 0)\n', '', 'E.routing', file=E)
     B('charpath drops diagonal always', 'charpath', '    if not include_diagonal:\n        np.fill_diagonal(D, np.nan)', '    np.fill_diagonal(D, np.nan)', 'E.charpath-exclusions')
     B('reachdist sentinel off by one', 'reachdist', 'D[D == n + 2] = np.inf', 'D[D == n + 1] = np.inf', 'T.reachdist')
+    B('reachdist in/out degree axes exchanged', 'reachdist', 'id = np.sum(CIJ, axis=0)\n    od = np.sum(CIJ, axis=1)', 'id = np.sum(CIJ, axis=1)\n    od = np.sum(CIJ, axis=0)', 'E.unreachable')
+    B('reachdist sinks marked as unreachable targets', 'reachdist', 'D[:, id0] = np.inf\n    D[od0, :] = np.inf', 'D[:, od0] = np.inf\n    D[id0, :] = np.inf', 'E.unreachable')
+    B('reachdist completion block transposed', 'reachdist', 'R, D, powr = reachdist2(CIJ, CIJpwr, R, D, n, powr, col, row)\n\n', 'R, D, powr = reachdist2(CIJ, CIJpwr, R, D, n, powr, row, col)\n\n', 'E.completion')
+    B('reachdist source-less columns not marked', 'reachdist', '    D[:, id0] = np.inf\n', '', 'E.unreachable')
+    N('reachdist degrees by method call', 'reachdist', 'id = np.sum(CIJ, axis=0)\n    od = np.sum(CIJ, axis=1)', 'id = CIJ.sum(axis=0)\n    od = CIJ.sum(axis=1)')
+    N('reachdist zero sets by flatnonzero', 'reachdist', 'id0, = np.where(id == 0)', 'id0 = np.flatnonzero(id == 0)')
     N('n**2 spelling', 'efficiency_bin', 'E = np.sum(e) / (n * n - n)', 'E = np.sum(e) / (n ** 2 - n)', file=E)
     N('logical_not mask', 'distance_bin', 'D[D == 0] = np.inf', 'D[np.logical_not(D)] = np.inf')
     return out
